@@ -7,9 +7,11 @@ if ! git -C "$WT" apply "$P" 2>/dev/null; then
   if ! (cd "$WT" && patch -p1 --no-backup-if-mismatch < "$P" >/dev/null); then echo "PATCH DOES NOT APPLY"; git -C /repo worktree remove --force "$WT"; exit 3; fi
 fi
 rc=0
+# separate Coq build directory so that the real tree's .vo files are never disturbed
+export VERIF_COQ=/verif/work/coq-mut-$$
+mkdir -p /verif/work && rsync -a --delete /verif/coq/ "$VERIF_COQ"/
 for c in "$@"; do
   VERIF_REPO="$WT" /verif/check "$c" --tier "${TIER:-quick}" 2>&1 | grep -E "VIOLATION|KNOWN-FINDING|done:|ERROR|broken" | sed "s/^/[$c] /"
 done
 git -C /repo worktree remove --force "$WT"
-# restore Gen/ and the build for the real tree
-python3 /verif/tools/translate.py /repo /verif/coq/Gen >/dev/null
+rm -rf "$VERIF_COQ"
